@@ -16,7 +16,7 @@ def mk_dist(interp="zoh"):
 class DistAlgebra(Unit):
     name = "TrainableDist.sample/quantile/mean/get_alpha/window"
     target = BASE + "::TrainableDist.sample"
-    props = ("C10", "C15")
+    props = ("C10", "C15", "C11")
 
     def run(self, ctx):
         ex = ctx.ex
@@ -88,6 +88,59 @@ class ApplyDelayZoh(Unit):
         ctx.ensure("the trainable distribution travels with the input (so the delay stays adjustable)", z3.BoolVal(r["delay_dist"] is D))
 
 
+NODE = "rex/node.py"
+
+
+class InitInputsDelays(Unit):
+    """BaseNode.init_inputs: the route `init_delays -> alpha` of the statement ("through init_delays/params"). init_delays is keyed by INPUT name (the key of node.inputs, which may shadow the connected
+    node's name); the entry for an input with a trainable distribution sets that input's alpha = clip((d - min) / (max - min), 0, 1); every other distribution is handed on untouched; the default window
+    holds exactly `window` entries with negative sequence numbers."""
+    name = "BaseNode.init_inputs (init_delays -> alpha)"
+    target = NODE + "::BaseNode.init_inputs"
+    props = ("C10",)
+
+    def configs(self):
+        yield "shadow input name", dict(inputs=[("obs", "plant", True, 2)], delays=["obs"])
+        yield "input names and node names crossed", dict(inputs=[("a", "b", True, 1), ("b", "a", True, 3)], delays=["a", "b"])
+        yield "entry under the connected node's name only", dict(inputs=[("obs", "plant", True, 2)], delays=["plant"])
+        yield "partial dictionary", dict(inputs=[("x", "n1", True, 2), ("y", "n2", True, 1)], delays=["y"])
+        yield "entry for a static connection", dict(inputs=[("x", "n1", False, 2), ("y", "n2", True, 2)], delays=["x", "y"])
+
+    def run(self, ctx):
+        ex, cfg = ctx.ex, ctx.cfg
+        ins, dists, outs = {}, {}, {}
+        for (iname, oname, trainable, window) in cfg["inputs"]:
+            mn, mx, al = z3.Real(f"{iname}.min"), z3.Real(f"{iname}.max"), z3.Real(f"{iname}.alpha")
+            ctx.require(z3.And(0 <= mn, mn < mx, 0 <= al, al <= 1))
+            dd = Rec("TrainableDist", dict(alpha=al, min=mn, max=mx, interp="zoh"), module=BASE, frozen=True) if trainable else Rec("StaticDist", dict(dist=z3.Const(f"{iname}.dist", Leaf)), module=BASE, frozen=True)
+            dists[iname] = (dd, mn, mx)
+            outs[iname] = z3.Const(f"{oname}.default_output", Leaf)
+            onode = Rec("BaseNode", dict(name=oname, init_output=(lambda o: lambda ex_, rng=None, gs=None: o)(outs[iname])), module=None)
+            ins[iname] = Rec("Connection", dict(window=window, output_node=onode, delay_dist=dd), module=None)
+        d = {k: z3.Real(f"delay[{k}]") for k in cfg["delays"]}
+        node = Rec("BaseNode", dict(name="me", inputs=ins, init_delays=lambda ex_, rng=None, gs=None: dict(d)), module=NODE)
+        ret = ctx.call(self_obj=node, args=[z3.Const("rng", Leaf), z3.Const("graph_state", Leaf)])
+        got = dict(ret.items()) if hasattr(ret, "items") else None
+        ctx.ensure("one InputState per input, under the input's name", z3.BoolVal(got is not None and list(got) == [i[0] for i in cfg["inputs"]]))
+        if got is None:
+            return
+        for (iname, oname, trainable, window) in cfg["inputs"]:
+            st, (dd, mn, mx) = got[iname], dists[iname]
+            nd = st.f["delay_dist"]
+            if trainable and iname in d:
+                frac = (d[iname] - mn) / (mx - mn)
+                ctx.ensure(f"C10 input {iname}: alpha is set from init_delays[{iname!r}] (its own entry, by input name), saturating at the bounds",
+                           z3.And(z3.BoolVal(isinstance(nd, Rec) and nd.cls == "TrainableDist"), toz(nd.f["alpha"]) == z3.If(frac < 0, 0, z3.If(frac > 1, 1, frac)),
+                                  toz(nd.f["min"]) == mn, toz(nd.f["max"]) == mx, z3.BoolVal(nd.f["interp"] == "zoh")) if isinstance(nd, Rec) and nd.cls == "TrainableDist" else z3.BoolVal(False))
+            else:
+                ctx.ensure(f"C10 input {iname}: no entry of its own (or not trainable) - the connection's distribution is handed on untouched", z3.BoolVal(nd is dd))
+            seq = st.f["seq"]
+            n = seq.n if isinstance(seq, Arr) else len(seq)
+            j = z3.Int("j!ii")
+            ctx.ensure(f"C10 input {iname}: exactly `window` default entries, all with negative sequence numbers (oldest first: -window .. -1)",
+                       z3.And(toz(n) == window, *[toz(ex.getitem(seq, i)) == i - window for i in range(window)]))
+
+
 NPROBE = 8
 
 
@@ -111,13 +164,14 @@ def _replay_zoh(self, label, clause, probes, model):
 
 
 ApplyDelayZoh.replay = _replay_zoh
+InitInputsDelays.replay = lambda self, label, clause, probes, model: {"kind": "pure", "which": "init_inputs", "cfg": dict(self.configs())[label]}
 DistAlgebra.replay = lambda self, label, clause, probes, model: {"kind": "pure", "which": "trainable_dist", "probes": probes}
 
 
 from .c12 import MinimalDelaySubstitution
 from .c07 import ApplyWindowBody
 from .compiled import UpdateInputsDelay
-UNITS = [DistAlgebra(), ApplyDelayZoh(), MinimalDelaySubstitution(), ApplyWindowBody(), UpdateInputsDelay()]
+UNITS = [DistAlgebra(), ApplyDelayZoh(), InitInputsDelays(), MinimalDelaySubstitution(), ApplyWindowBody(), UpdateInputsDelay()]
 EXTRA = dict(assumptions=["the coverage lemma 'every generated / recorded graph satisfies the extended-window precondition' needs sender sends >= 1/rate apart; it is NOT proved here (DESIGN 6/C10: refuted for jittery computation delays - recorded as an observation, see DESIGN 7)",
                           "make_update_inputs keeps the previous delay distribution (proved under C08's _update_inputs unit)"])
 
